@@ -121,7 +121,20 @@ func (s *scheduler) getLaunchRequests(shards []*pb.Shard,
 		plog.Infof("address %s, region %s", nh.Address, nh.Region)
 	}
 	plog.Infof("regions content %v", regions)
+	if regions == nil || len(regions.Region) != len(regions.Count) {
+		return nil, errors.New("invalid regions specification")
+	}
 	for _, shard := range shards {
+		total := uint64(0)
+		for _, cnt := range regions.Count {
+			if cnt > uint64(len(shard.Members)) {
+				return nil, errors.New("region count exceeds shard size")
+			}
+			total += cnt
+		}
+		if total != uint64(len(shard.Members)) {
+			return nil, errors.New("regions specification does not match shard size")
+		}
 		selected := make([]*nodeHostSpec, 0)
 		for idx, reg := range regions.Region {
 			cnt := int(regions.Count[idx])
@@ -138,6 +151,13 @@ func (s *scheduler) getLaunchRequests(shards []*pb.Shard,
 		if len(selected) < len(shard.Members) {
 			// FIXME: check whether this setup is actually aborted.
 			return nil, errors.New("not enough nodehost in suitable regions")
+		}
+		used := make(map[string]struct{})
+		for _, nh := range selected {
+			if _, ok := used[nh.Address]; ok {
+				return nil, errors.New("nodehost selected more than once")
+			}
+			used[nh.Address] = struct{}{}
 		}
 		replicaIDList := make([]uint64, 0)
 		addressList := make([]string, 0)
